@@ -307,7 +307,7 @@ def replay(C, model, tag):
     """Replay a counter-model on the real function under /venv/bin/python (scratch copy).
     Returns dict(reproduced=bool, ...)."""
     req = dict(module=C.module, cls=C.clsname, case=C.case_name, contract=C.name, model=model or {})
-    path = os.path.join(VERIF, "replays", "%s.json" % tag)
+    path = os.path.join(os.environ.get("VERIF_OUT") or VERIF, "replays", "%s.json" % tag)
     os.makedirs(os.path.dirname(path), exist_ok=True)
     with open(path, "w") as f:
         json.dump(req, f, indent=1, default=str)
